@@ -21,7 +21,7 @@ META = {
 }
 TIMEOUT_S = {"quick": 600, "thorough": 3000}
 
-ALPHA_Q = [0, -1, slice(None), slice(1, None), slice(None, -1), slice(0, 3, 2), slice(2, 4), [0, 2], [2, 0]]
+ALPHA_Q = [0, -1, slice(None), slice(1, None), slice(None, -1), slice(0, 3, 2), slice(2, 4), slice(1, 3), [0, 2], [2, 0]]
 ALPHA_T = ALPHA_Q + [1, slice(-2, None), slice(1, 2), slice(0, 9), slice(None, None, 3), [1, 1], [-1]]
 
 
